@@ -35,6 +35,7 @@ Inductive kind :=
   | KDirSpec  (* C15: directory created by the sink is not 0700 *)
   | KActive   (* C15: naming of the active file contradicts the mode *)
   | KNoRot    (* C15: a rotated file exists although neither limit is set *)
+  | KStray    (* C15: the directory holds a file that is neither base.ext, base-<stamp>.ext nor one the harness planted *)
   | KCrash    (* C08/C15: the directory left by SIGKILL is none of the model's crash points *)
   | KHyp.     (* informational, never reported: the readings fed do not satisfy clock_ok *)
 
@@ -100,6 +101,7 @@ Section Case.
      if special c then (match o_files ob with [] => [] | _ => [KActive] end)
      else if tsOnly c || negb (rotateEnabled c) then (if sink_call && negb has_plain then [KActive] else [])
      else (if has_plain then [KActive] else [])) ++
+    (if existsb (fun f => N.eqb (fo_kind f) 9) (o_files ob) then [KStray] else []) ++
     (if (maxBytes c <=? 0) && (maxDur c <=? 0) &&
         N.ltb nren (N.of_nat (length (filter (fun f => N.eqb (fo_kind f) 1) (o_files ob)))) then [KNoRot] else []).
 
